@@ -171,7 +171,7 @@ pub(crate) mod c10 {
 
     harness! {
         #[kani::unwind(30)]
-        fn t10_conversion_info_total() {
+        fn x10_conversion_info_total() {
             use crate::report::hybrid_info::HybridConversionInfo;
             // domain (0..=2 bytes) + delimiter + key id + 3 x 8 bytes, or any truncation/garbage
             let buf: [u8; 28] = kani::any();
@@ -288,7 +288,7 @@ pub(crate) mod c12_dummies {
 
     harness! {
         #[kani::unwind(4)]
-        fn t12_dummy_records_contribute_nothing() {
+        fn x12_dummy_records_contribute_nothing() {
             // a dummy record built for padding: a consistent sharing of the random match key between the
             // two generating helpers (the third helper's direction holds zero) and all-zero value and
             // breakdown key, so it cannot add to any bucket.
